@@ -15,7 +15,7 @@ import numpy
 import z3
 
 from vc.shim import patched
-from vc.sym import And, Sym, spec_mode
+from vc.sym import And, Sym, spec_mode  # noqa
 
 FN = "hypnotoad.core.mesh:MeshRegion.__init__"
 TRUE = lambda b: Sym(z3.BoolVal(bool(b)))
@@ -68,7 +68,13 @@ def make_run(inside, nx=2, nsep=3):
         pv[radialIndex] = psi_vals
         er.psi_vals = pv
         er.startInd, er.endInd = 0, nsep - 1
-        er.psi = lambda R, Z: sep_psi
+        # psi along the skeleton: one symbol per skeleton point (a disconnected double null's core
+        # skeleton runs from one separatrix to the other: it is NOT a single flux surface); only the
+        # side of the region's far boundary it lies on is assumed
+        psi_sk = [ctx.real("psi_skeleton%d" % j) for j in range(nsep)]
+        far = psi_vals[0] if inside else psi_vals[-1]
+        ctx.assume(And(*[(p_ > far) if inside else (p_ < far) for p_ in psi_sk]))
+        er.psi = lambda R, Z: psi_sk[int(round((R - 1.0) / 0.1))]
         er.equilibrium = types.SimpleNamespace(poloidal_spacing_delta_psi=ctx.real("delta_psi"))
         ctx.assume(er.equilibrium.poloidal_spacing_delta_psi > 0)
         er.wallSurfaceAtStart = er.wallSurfaceAtEnd = object()  # wall ends: no X-point angle to compute
@@ -106,6 +112,7 @@ def make_run(inside, nx=2, nsep=3):
             ctx.oblige(TRUE(len(maps) == 2 and maps[0][0] == "follow" and maps[1][0] == "refine"), "one map over the separatrix points (followPerpendicular), one map refining the contours")
             tasks = maps[0][1]
             ctx.oblige(TRUE([t[0] for t in tasks] == list(range(nsep)) and all(t[1] == er[j] for j, t in enumerate(tasks))), "every point of the equilibrium region is followed, in order, labelled by its index")
+            ctx.oblige(TRUE(len(tasks) == nsep and all(isinstance(t[2], Sym) and same(t[2], psi_sk[j]) for j, t in enumerate(tasks))), "perpendicular j is started with psi evaluated AT skeleton point j (not a value shared by the whole skeleton)")
             order = list(reversed(psi_vals)) if inside else psi_vals
             ctx.oblige(TRUE(all(len(c[3]) == len(order) and all(same(a, b) for a, b in zip(c[3], order)) for c in fp_calls[2:])), "psi values to follow: this region's radial grid, ordered from the separatrix outwards (reversed inside the separatrix)")
             ctx.oblige(TRUE(len(made) == 2 * nx + 1), "one contour per radial grid value")
@@ -121,8 +128,35 @@ def make_run(inside, nx=2, nsep=3):
     return run
 
 
+def run_new_contour(ctx):
+    """The real PsiContour.newContourFromSelf, through which MeshRegion.__init__ builds every radial
+    grid line: the new contour carries THE psival it was asked for -- any real value, 0 included
+    (flux is defined up to a constant; a surface at psi = 0 is an ordinary surface) -- and the points
+    given; without arguments it inherits both."""
+    from hypnotoad.core import equilibrium as E
+
+    parent_psi, want = ctx.real("parent_psival"), ctx.real("requested_psival")
+    ctx.assume(parent_psi != want)
+    inf = float("inf")
+    pts = [E.Point2D(1.0, 0.0), E.Point2D(1.1, 0.2)]
+    c = E.PsiContour(points=list(pts), psival=parent_psi, settings={}, Rrange=(-inf, inf), Zrange=(-inf, inf))
+    c.startInd, c.endInd = 0, 1
+    newp = [E.Point2D(2.0, 0.5)]
+    n1 = c.newContourFromSelf(points=newp, psival=want)
+    n2 = c.newContourFromSelf()
+    with spec_mode():
+        ctx.oblige(TRUE(isinstance(n1.psival, Sym)) if not isinstance(n1.psival, Sym) else n1.psival == want, "newContourFromSelf(psival=v).psival = v for every real v (0 included)")
+        ctx.oblige(TRUE(n1.points is newp or list(n1.points) == newp), "... with the points given")
+        ctx.oblige(TRUE(isinstance(n2.psival, Sym)) if not isinstance(n2.psival, Sym) else n2.psival == parent_psi, "without arguments: the parent's psival")
+        ctx.oblige(TRUE(len(n2.points) == 2 and all(a is not b and a.R == b.R and a.Z == b.Z for a, b in zip(n2.points, pts))), "... and a copy of the parent's points")
+        ctx.oblige(TRUE(n1.startInd == c.startInd and n1.endInd == c.endInd), "start / end indices carried over")
+    return n1
+
+
 def add(S):
     S.under_contract(FN)
     S.assume("MeshRegion.__init__: followPerpendicular (ordering contract: C04) and PsiContour.refine (C01) are stubs returning labelled tokens; equilibrium region is a 3-point stub with wall ends (the X-point angle block is not exercised)")
+    S.under_contract("hypnotoad.core.equilibrium:PsiContour.newContourFromSelf")
+    S.contract("PsiContour.newContourFromSelf", "hypnotoad.core.equilibrium:PsiContour.newContourFromSelf", run_new_contour, shape="symbolic psival of parent and request")
     for inside in (False, True):
         S.contract("MeshRegion.__init__[%s the separatrix]" % ("inside" if inside else "outside"), FN, make_run(inside), expected_exceptions=(ValueError,), shape="nx=2 (5 radial values, symbolic), 3 separatrix points")
